@@ -970,7 +970,14 @@ Definition init (c : cfg) : st :=
 
 (* ---- reductions used by the matcher only (see MI): sorted worker list, dispatch to the first idle
    worker, and eager internal steps that never disable another label and commute with every
-   other label: [TCloseIn], [TInClosed w], [TWExit w], [TLoop], [TPut]. *)
+   other label, now and in every future (each is the only possible next step of its thread, is not an
+   arm of a select, and touches nothing another thread tests for being disabled): [TCloseIn],
+   [TInClosed w], [TWExit w], [TLoop], [TPut], [TWait], [TCloseWait] and the errgroup bookkeeping
+   ([TDRet], [TWRet w]) of a goroutine that returned nil.  Arms of a select are never taken eagerly.
+   In addition the matcher keeps the channel buffer [c] sorted by index: the order inside [c] is not
+   observable (the consumer pushes whatever it receives into the heap and returns only when the
+   next index is there), and [c] is never full when a worker wants to send (at most bufferSize
+   items hold a token: see MSP.Inv in ParMapProofs.v), so the FIFO order changes no visible event. *)
 Definition erank (r : option err) : nat :=
   match r with
   | None => 0 | Some (ECtx ByError) => 1 | Some (ECtx ByClose) => 2 | Some (ECtx ByParent) => 3
@@ -990,7 +997,7 @@ Definition wsort (l : list wpc) : list wpc := fold_right winsert [] l.
 Definition canon (s : st) : st :=
   mkSt (src s) (ferr s) (serr s) (buf s) (fgated s) (sgated s) (frel s) (srel s) (reqs s) (nctx s) (pdone s)
        (g s) (eg_err s) (egdone s) (pulled s) (disp s) (tokens s) (wsort (ws s)) (in_closed s) (ndone s)
-       (cbuf s) (c_closed s) (heap s) (next s) (cons s)
+       (fold_right hpush [] (cbuf s)) (c_closed s) (heap s) (next s) (cons s)
        (yielded s) (taken s) (ndisp s) (failed s) (srcfailed s) (close_called s) (src_closed s).
 Definition mstep (fv : Z -> Z) (s : st) (l : lab) : option st :=
   match qstep fv s l with Some s' => Some (canon s') | None => None end.
@@ -1002,7 +1009,11 @@ Fixpoint first_idle (l : list wpc) (i : nat) : list nat :=
   | _ :: t => first_idle t (S i)
   end.
 Definition eager_labels (s : st) : list lab :=
-  [TCloseIn; TLoop; TPut] ++ flat_map (fun w => [TInClosed w; TWExit w]) (seq 0 (length (ws s))).
+  [TCloseIn; TLoop; TPut; TWait; TCloseWait]
+  ++ match disp s with SRet None => [TDRet] | _ => [] end
+  ++ flat_map (fun w => [TInClosed w; TWExit w]
+                        ++ match nth_error (ws s) w with Some (TRet None) => [TWRet w] | _ => [] end)
+              (seq 0 (length (ws s))).
 Definition tau_labels (fv : Z -> Z) (s : st) : list lab :=
   match filter (enabled fv s) (eager_labels s) with
   | l :: _ => [l]
